@@ -77,6 +77,14 @@ CATALOGUE = [
     '<dtml-var va><dtml-var xi>,</dtml-in>',
     '<dtml-try><dtml-var fe><dtml-except ValueError>V<dtml-except OSError>O'
     '<dtml-except>other</dtml-try>|<dtml-var va>',
+    # request data next to plain data through formats and modifiers
+    '<dtml-var tv thousands_commas>|<dtml-var tv fmt=casefold>|'
+    '<dtml-var tv url_unquote upper>|<dtml-var tv size=20>',
+    # the class of a raise computed by an expression that fails in some
+    # threads only
+    '<dtml-try><dtml-raise expr="[VfB][1 - ct]">m<dtml-var va></dtml-raise>'
+    '<dtml-except VfA>A:<dtml-var error_value><dtml-except>other:'
+    '<dtml-var error_type></dtml-try>',
     # a value returned from inside blocks, with finally parts on its way
     '<dtml-with oa><dtml-try><dtml-return va><dtml-finally><dtml-var sk>'
     '<dtml-var xo></dtml-try></dtml-with>',
@@ -108,6 +116,9 @@ def namespaces():
         ns['tq'] = dict(t='tree', id='r', children=[
             dict(t='tree', id='a', children=[dict(t='tree', id='a1')]),
             dict(t='tree', id='b')])
+        # request data (tainted) in some threads, plain text in the others
+        ns['tv'] = dict(t='tainted', v='<b>T%d' % i) if i in (0, 2, 3) \
+            else 'plain<%d>' % i
         ns['URL'] = 'http://h/p'
         ns['RESPONSE'] = dict(t='response')
         ns['expand_all'] = 1
